@@ -139,6 +139,19 @@ CHECKS = {
         design_ref="DESIGN.md section 5, C14",
         note=NOTE_COMMON + "D29 and D57 (wrong exception class) were repaired in /repo.",
     ),
+    "C02": dict(
+        technique="Lean 4 proof: theorems about the row-level verbs of an executable reference semantics (Spec.run) of the whole verb language; Spec and "
+                  "a hand-written model of the SQL compiler are tied to the code by comparing exported frames of Polars and SQLite with the models' frames",
+        text="Pdt/Props/C02.lean over Pdt/Model/Spec.lean: select_only_hides and rename_only_names (rows, order and the other columns untouched), "
+             "filter_sublist / matchRows_spec (exactly the rows whose every predicate is true, null = not kept, order kept, filter() = identity), slice_rows "
+             "(rows k..k+n-1 of the current order), mutate_keeps_old / mutate_new_column / mutate_visible (old columns unchanged, one value per row, replaced "
+             "name moves to the end), group_ungroup_alias_data_id, alias_data, frame_shape. Tie O7: every generated program is run on real Polars and real SQLite "
+             "and the exported frames are compared with Spec.run's frame; SQLite's frame is also compared with the Lean model of the SQL compiler (Sql.run) "
+             "and the Cache / check_subquery states with the front-end model. Partial: Polars' and SQLite's own evaluation is modelled (Spec / Sql.evalSelect); "
+             "refinement Sql.run = Spec.run is established by execution on the generated programs, not yet as a theorem.",
+        design_ref="DESIGN.md section 5, C02",
+        note=NOTE_COMMON + "Defect D3 (limit/offset composition) was repaired in /repo. Known findings by trigger: D4, D15, D42.",
+    ),
 }
 
 NOT_YET = "check not built yet in this revision of /verif (model and theorems planned in DESIGN.md section 5)"
